@@ -261,6 +261,68 @@ Definition generate (c : config) (fail_at : option stage) (s : fs) : fs * outcom
      match fail_at with Some f => Fail f | None => Ok end
    else if diff && has_diff c s1 then DiffFound else Ok).
 
+(* ---------- a failure INSIDE a stage: the OS refuses to create one file or directory ---------- *)
+(* FileManager.write_file / ensure_dir (or a direct open / mkdir) raises OSError on the first creation
+   of a file or directory whose base name is [name].  The operations before it have happened;
+   ClientEmitter.emit and MocksEmitter.emit catch the exception, append a report to an error log
+   in tempfile.gettempdir() (the parent of the TemporaryDirectory) and re-raise. *)
+Definition base_matches (name : str) (p : path) : bool := str_eqb (last p []) name.
+Definition sys_tmp (c : config) : path := removelast (tmp c).
+Definition error_log_ops (c : config) (st : stage) : list fs_op :=
+  match st with
+  | Client => [Write (sys_tmp c ++ [s_error_log]) 1]
+  | Mocks => [Write (sys_tmp c ++ [s_mocks_error_log]) 1]
+  | _ => []
+  end.
+(* Some l: the operation is refused; l = the part of it that still happens (makedirs creates the
+   missing directories above the refused one) *)
+Definition io_cut (name : str) (s : fs) (op : fs_op) : option (list fs_op) :=
+  match op with
+  | Write p _ => if base_matches name p then Some [] else None
+  | WriteIfAbsent p _ => if negb (exists_b s p) && base_matches name p then Some [] else None
+  | Mkdirs p =>
+      match find (fun q => negb (exists_b s q) && base_matches name q) (prefixes p) with
+      | Some q => Some [Mkdirs (removelast q)]
+      | None => None
+      end
+  | Remove _ | Rmtree _ => None
+  end.
+(* ModelsEmitter._generate_model_file wraps the write of <m>.tmp / rename in `except Exception`,
+   logs and returns None: the refusal is swallowed, that model module is simply missing and
+   generation goes on (the injection fires once, so the rest of the plan runs unchanged). *)
+Definition swallows (st : stage) (op : fs_op) : bool :=
+  stage_eqb st Models && match op with Write p _ => suffixb s_dot_tmp (last p []) | _ => false end.
+Record io_result := { io_ops : list (stage * fs_op); io_hit : option stage; io_swallowed : bool }.
+Fixpoint io_plan (name : str) (c : config) (s : fs) (pl : list (stage * fs_op)) : io_result :=
+  match pl with
+  | [] => {| io_ops := []; io_hit := None; io_swallowed := false |}
+  | (st, op) :: r =>
+      match io_cut name s op with
+      | Some part =>
+          if swallows st op
+          then {| io_ops := skipn 2 r; io_hit := None; io_swallowed := true |}   (* Remove tmp; Write py skipped *)
+          else {| io_ops := map (pair st) (part ++ error_log_ops c st); io_hit := Some st; io_swallowed := false |}
+      | None => let x := io_plan name c (apply_op s op) r in
+                {| io_ops := (st, op) :: io_ops x; io_hit := io_hit x; io_swallowed := io_swallowed x |}
+      end
+  end.
+Definition io_run (c : config) (name : str) (s : fs) : io_result :=
+  io_plan name c s (plan_main c (diff_mode c s) None).
+Definition plan_io (c : config) (name : str) (s : fs) : list (stage * fs_op) :=
+  io_ops (io_run c name s) ++ (if diff_mode c s then [(Final, Rmtree (tmp c))] else []).
+Inductive outcome_io := Returned (o : outcome) | FailIO (st : stage).
+Definition generate_io (c : config) (name : str) (s : fs) : fs * outcome_io :=
+  (exec s (plan_io c name s),
+   match io_hit (io_run c name s) with
+   | Some st => FailIO st
+   | None => Returned (if diff_mode c s && has_diff c (exec s (io_ops (io_run c name s))) then DiffFound else Ok)
+   end).
+(* some operation was refused by the OS during the run *)
+Definition io_refused (c : config) (name : str) (s : fs) : bool :=
+  match io_hit (io_run c name s) with Some _ => true | None => io_swallowed (io_run c name s) end.
+(* F10c: the refusal hits the write of a model module and is swallowed *)
+Definition guard_F10c (c : config) (name : str) (s : fs) : bool := negb (io_swallowed (io_run c name s)).
+
 (* ---------- the property ---------- *)
 Definition restrict_root (c : config) (s : fs) : fs := filter (fun kv => under (root c) (fst kv)) s.
 
@@ -284,5 +346,8 @@ Definition wf_pkg (c : config) : bool :=
   && forallb nonempty (core_fqn c) && negb (path_eqb (core_fqn c) []).
 (* the temporary directory and the project root are disjoint (assumption on the environment) *)
 Definition wf_tmp (c : config) : bool := negb (under (root c) (tmp c)) && negb (under (tmp c) (root c)).
+(* the emitters' error logs (system temp dir) are not below the project root (assumption on the environment) *)
+Definition wf_log (c : config) : bool :=
+  negb (under (root c) (sys_tmp c ++ [s_error_log])) && negb (under (root c) (sys_tmp c ++ [s_mocks_error_log])).
 (* F10b: post-processing runs ruff from the current directory without --no-cache *)
 Definition guard_F10b (c : config) : bool := negb (post c) || negb (under (root c) (cwd c ++ [s_ruff_cache])).
